@@ -257,11 +257,19 @@ def apply_table(n):
         "first_str": (np.array(STRS[:n], dtype="U3"), _first_str, None, "scalar_str"),
         "any_bool": (ints, _any_big, None, "pybool"),
         "fsum": (ints, _fsum, None, "pyfloat"),
+        # reductions called without an axis on 2-D data: one scalar per segment (seed C17-g: a vectorised
+        # fast path that treats axis=None like axis=0)
+        "sum_2d_noaxis": (np.array(COORD[:n], dtype=np.float64).reshape(n, 3), np.sum, None, "scalar_2d_data"),
+        "max_2d_noaxis": (np.array(COORD[:n], dtype=np.float64).reshape(n, 3), np.max, None, "scalar_2d_data"),
+        "min_2d_noaxis": (np.array(COORD[:n], dtype=np.float64).reshape(n, 3), np.min, None, "scalar_2d_data"),
+        "max_int": (ints, np.max, None, "scalar_int"),
+        "min_axis0": (np.array(COORD[:n], dtype=np.float64).reshape(n, 3), np.min, 0, "array_axis0"),
     }
 
 
-APPLY_CORE = ("sum_int", "mean_axis0")
-APPLY_FULL = ("sum_int", "mean_axis0", "minmax_arr", "len", "first_str", "any_bool", "fsum")
+APPLY_CORE = ("sum_int", "mean_axis0", "sum_2d_noaxis", "max_2d_noaxis")
+APPLY_FULL = ("sum_int", "mean_axis0", "minmax_arr", "len", "first_str", "any_bool", "fsum",
+              "sum_2d_noaxis", "max_2d_noaxis", "min_2d_noaxis", "max_int", "min_axis0")
 
 
 def index_arrays(n, enum, full):
